@@ -88,6 +88,8 @@ def apply_edits(text, edits, where, prov):
         if e.get("optional") and got == 0:
             # the construct this shim is for is absent: nothing to route (the code then stands as it is)
             continue
+        if count == -1 and got >= 1:
+            count = got
         if got != count:
             raise LostAnchor("%s: declared %s-site `%s` found %d times, expected %d" % (where, cls, find.strip()[:60], got, count))
         text = text.replace(find, repl)
@@ -606,8 +608,99 @@ def desugar_for_each(body, count, where, prov):
         prov.append({"cls": "D", "what": "Iterator::for_each desugared to a for loop", "iter": re.sub(r"\s+", "", recv), "elem": x})
         body = body[:toks[j + 1][2]] + new + body[end:]
         done += 1
-    if done != count:
+    if done != count and not (count == -1 and done >= 1):
         raise LostAnchor("%s: %d for_each sites desugared, unit declares %d" % (where, done, count))
+    return body
+
+
+def _operand_start(toks, q):
+    """index of the first token of the postfix expression that ends right before toks[q]"""
+    j = q - 1
+    while j >= 0:
+        t = toks[j]
+        if t[0] == "punct" and t[1] in ")]":
+            depth, m = 0, j
+            while m >= 0:
+                if toks[m][0] == "punct" and toks[m][1] in ")]}":
+                    depth += 1
+                elif toks[m][0] == "punct" and toks[m][1] in "([{":
+                    depth -= 1
+                    if depth == 0:
+                        break
+                m -= 1
+            j = m - 1
+            # a call / index: keep going over the callee path
+            if j >= 0 and (toks[j][0] == "id" or toks[j][1] == "!"):
+                continue
+            return m
+        if t[0] == "id" or (t[0] == "punct" and t[1] in ".:!"):
+            j -= 1
+            continue
+        break
+    return j + 1
+
+
+def _alpha(cbody, x, new_x):
+    """rename the bound variable x to new_x inside a closure body (identifier tokens; not field names)"""
+    ctoks = code_tokens(cbody)
+    out, pos = [], 0
+    for i, t in enumerate(ctoks):
+        if t[0] == "id" and t[1] == x and not (i > 0 and ctoks[i - 1][1] == "." ):
+            out.append(cbody[pos:t[2]]); out.append(new_x); pos = t[3]
+    out.append(cbody[pos:])
+    return "".join(out)
+
+
+def desugar_try_for_each(body, count, where, prov, rename=None):
+    """class D: `ITER.try_for_each(|X| BODY)?;` becomes `for X in ITER { (BODY)?; }`: a Break produced inside BODY (by `?`) or as
+    BODY's value leaves the enclosing function at once in both forms; Continue goes on to the next element."""
+    done = 0
+    while True:
+        toks = code_tokens(body)
+        ks = [i for i, t in enumerate(toks) if t[1] == "try_for_each" and toks[i - 1][1] == "." and toks[i + 1][1] == "(" and toks[i + 2][1] == "|" and toks[i + 4][1] == "|" and toks[i + 3][0] == "id"]
+        if not ks:
+            break
+        k = ks[-1]      # innermost / last first, so that offsets of outer sites stay valid after re-tokenising
+        x = toks[k + 3][1]
+        close = match_close(toks, k + 1)
+        if not (toks[close + 1][1] == "?" and toks[close + 2][1] == ";"):
+            raise LostAnchor("%s: try_for_each(..) is not immediately propagated with `?;`" % where)
+        cbody = body[toks[k + 5][2]:toks[close - 1][3]]
+        for t in toks[k + 5:close]:
+            if t[0] == "id" and t[1] in ("return", "break", "continue"):
+                raise LostAnchor("%s: try_for_each closure contains %s" % (where, t[1]))
+        st = _operand_start(toks, k - 1)
+        recv = body[toks[st][2]:toks[k - 2][3]]
+        if rename and x in rename:
+            # alpha-renaming: the closure parameter shadows a variable of the enclosing scope that contracts need to name
+            cbody = _alpha(cbody, x, rename[x])
+            prov.append({"cls": "D", "what": "bound variable `%s` renamed to `%s` (it shadows an outer variable)" % (x, rename[x])})
+            x = rename[x]
+        new = "for %s in %s { (%s)?; }" % (x, recv, cbody)
+        prov.append({"cls": "D", "what": "try_for_each(..)? desugared to a for loop with `?` on the body", "iter": re.sub(r"\s+", "", recv), "elem": x})
+        body = body[:toks[st][2]] + new + body[toks[close + 2][3]:]
+        done += 1
+    if done != count and not (count == -1 and done >= 1):
+        raise LostAnchor("%s: %d try_for_each sites desugared, unit declares %d" % (where, done, count))
+    return body
+
+
+def desugar_question_controlflow(body, where, prov):
+    """class D: `E?` in a function returning ControlFlow<B, _> is
+       `match E { ControlFlow::Continue(c) => c, ControlFlow::Break(b) => return ControlFlow::Break(b) }` (impl Try for ControlFlow)."""
+    n = 0
+    while True:
+        toks = code_tokens(body)
+        qs = [i for i, t in enumerate(toks) if t[0] == "punct" and t[1] == "?"]
+        if not qs:
+            break
+        q = qs[-1]
+        st = _operand_start(toks, q)
+        expr = body[toks[st][2]:toks[q - 1][3]]
+        new = "match %s { ControlFlow::Continue(c_) => c_, ControlFlow::Break(b_) => return ControlFlow::Break(b_) }" % expr
+        body = body[:toks[st][2]] + new + body[toks[q][3]:]
+        n += 1
+    prov.append({"cls": "D", "what": "`?` on ControlFlow desugared to match/return at %d sites" % n})
     return body
 
 
@@ -935,10 +1028,14 @@ class Unit:
             sig = strip_comments(it.sig)
             body = strip_comments(it.body)
             if spec.get("contract_only"):
-                spec = {k: v for k, v in spec.items() if k not in ("lift", "fold_lift", "desugar_folds", "desugar_map_collect_sets", "desugar_iter_mut_chain", "desugar_for_each", "closure", "autofmt", "top", "loop")}
+                spec = {k: v for k, v in spec.items() if k not in ("lift", "fold_lift", "desugar_folds", "desugar_map_collect_sets", "desugar_iter_mut_chain", "desugar_for_each", "desugar_try_for_each", "desugar_question_controlflow", "closure", "autofmt", "top", "loop")}
                 spec["edit"] = [e for e in spec.get("edit", []) if e.get("in") == "sig"]
             sig = apply_edits(sig, [e for e in spec.get("edit", []) if e.get("in") == "sig"], where, prov)
             body = apply_edits(body, [e for e in spec.get("edit", []) if e.get("in", "body") == "body"], where, prov)
+            if spec.get("desugar_try_for_each"):
+                body = desugar_try_for_each(body, spec["desugar_try_for_each"], where, prov, spec.get("rename_bound"))
+            if spec.get("desugar_question_controlflow"):
+                body = desugar_question_controlflow(body, where, prov)
             if spec.get("desugar_for_each"):
                 body = desugar_for_each(body, spec["desugar_for_each"], where, prov)
             if spec.get("desugar_iter_mut_chain"):
